@@ -312,6 +312,15 @@ def queue_kept(ctx, facts):
     queue when the token has none); nothing else in the crate touches the waiter map or a queue except to read it."""
     import panics
     n = 0
+    # the waiter map is the PoolInner field `HashMap<Token, queue<..>>` that is not the idle map, whatever its element type
+    padt = facts.adt("client::pool::PoolInner")
+    wty = [fl["ty"] for fl in padt["variants"][0]["fields"] if re.search(r"HashMap<client::pool::key::Token, .*(VecDeque|vec::Vec)<", fl["ty"]) and "IdleConnections<" not in fl["ty"]] if padt else []
+    if len(wty) != 1:
+        return ctx.missing("waiter-queue|map-type", "PoolInner has no single HashMap<Token, queue> besides the idle map: %s" % wty)
+    m_ = re.search(r"HashMap<client::pool::key::Token, (.*)>$", wty[0])
+    qty = m_.group(1)
+    WAITER_MAP = r"^&(mut )?" + re.escape(wty[0].split("<")[0]) + r"<client::pool::key::Token, " + re.escape(qty)
+    WAITER_QUEUE = r"^&mut " + re.escape(qty)
     tabled = ("client::pool::PoolInner::push", "client::pool::PoolInner::cancel_connection")
     for g in facts.fns.values():
         if not g.nkey.startswith(("client::pool", "<client::pool")):
@@ -348,7 +357,7 @@ def queue_kept(ctx, facts):
         # an owned queue that goes out of scope drops every sender in it
         for b in g.live:
             t = g.term(b)
-            if t["k"] == "drop" and re.search(r"^(std::collections::(VecDeque|vec_deque::VecDeque)|(std|alloc)::vec::Vec)<.*oneshot::Sender<client::pool::Pooled<", t.get("pty") or "") and not in_checkout:
+            if t["k"] == "drop" and (t.get("pty") or "").startswith(qty) and not in_checkout:
                 ctx.bad("waiter-queue|%s|dropped" % g.nkey, "a queue of waiting senders is owned and dropped here", g.where(b))
     ctx.floor("waiter-queue|accesses", n, 4, "accesses to the waiter map / queues")
 
@@ -556,7 +565,9 @@ def P15(ctx, facts):
                 t = fld["ty"]
                 if t.startswith(("&", "std::pin::Pin<&")):
                     continue
-                if t in ("C", "T", "std::option::Option<C>", "std::option::Option<T>") or "Pooled<" in t or "Connection" in t and "Option<" in t or "Idle<" in t or "PoolInner<" in t:
+                # a channel end does not hold a connection (the sending half of a oneshot is empty until it is used up)
+                t_ = re.sub(r"tokio::sync::oneshot::(Sender|Receiver)<client::pool::Pooled<[^<>]*(<[^<>]*>)?[^<>]*>>", "CHANNEL_END", t)
+                if t in ("C", "T", "std::option::Option<C>", "std::option::Option<T>") or "Pooled<" in t_ or "Connection" in t and "Option<" in t or "Idle<" in t or "PoolInner<" in t:
                     holds = True
         if not holds:
             continue
